@@ -19,6 +19,7 @@ Flags == IF Full THEN [crc : BOOLEAN, large : BOOLEAN, toSender : BOOLEAN, unack
                 [crc |-> TRUE,  large |-> TRUE,  toSender |-> FALSE, unack |-> TRUE,  segctl |-> TRUE] }
 Common == {Ext(f, w) : f \in Flags, w \in [idw : Widths, seqw : (IF Full THEN Widths ELSE {1, 8})]}
 Zero == [datal |-> 0, metal |-> 0, err |-> FALSE, nresp |-> 0, l1 |-> 0, l2 |-> 0, t1 |-> "none", t2 |-> "none", nreq |-> 0]
+LongCounts == {127, 128, 129, 255, 256, 257}
 AllShapes ==
   {Ext(c, Ext(Zero, x)) : c \in Common,
      x \in [kind : {"FileData"}, datal : {0, 1, 100}]
@@ -27,7 +28,11 @@ AllShapes ==
        \cup [kind : {"Finished"}, err : BOOLEAN, nresp : {0, 1, 2}, l1 : {0, 1, 250, 255}, l2 : {0, 1}]
        \cup [kind : {"ACK", "Prompt", "KeepAlive"}]
        \cup [kind : {"Metadata"}, l1 : NameLens, l2 : {0, 1}, t1 : TlvKinds, t2 : {"none", "fsreq", "msg", "entity"}]
-       \cup [kind : {"NAK"}, nreq : {0, 1, 3}]}
+       \cup [kind : {"NAK"}, nreq : {0, 1, 3}]
+       \* repetition counts at the boundaries of one-octet arithmetic (a length or an overhead accumulated in a u8 / i8
+       \* goes wrong at 127/128 and 255/256 items): long lists of short items, still far below the 65535-octet data field
+       \cup [kind : {"Finished"}, err : BOOLEAN, nresp : LongCounts, l1 : {0, 1}, l2 : {0}]
+       \cup [kind : {"NAK"}, nreq : LongCounts]}
 Shapes == {x \in AllShapes : WellFormed(x)}
 
 Init == sh \in Shapes
